@@ -16,6 +16,20 @@ pub struct C18;
 /// arrive while a later sibling is current); every other line belongs to the
 /// current target.
 pub fn attribute(raw: &str) -> (BTreeMap<String, Vec<String>>, BTreeMap<String, Vec<i32>>, Vec<String>) {
+    let (a, b, c, _) = attribute_counting(raw);
+    (a, b, c)
+}
+
+#[allow(clippy::type_complexity)]
+pub fn attribute_counting(
+    raw: &str,
+) -> (
+    BTreeMap<String, Vec<String>>,
+    BTreeMap<String, Vec<i32>>,
+    Vec<String>,
+    BTreeMap<String, u32>,
+) {
+    let mut dos: BTreeMap<String, u32> = BTreeMap::new();
     let mut per: BTreeMap<String, Vec<String>> = BTreeMap::new();
     let mut done: BTreeMap<String, Vec<i32>> = BTreeMap::new();
     let mut problems = Vec::new();
@@ -33,9 +47,11 @@ pub fn attribute(raw: &str) -> (BTreeMap<String, Vec<String>>, BTreeMap<String, 
                 if well_formed {
                     match kind {
                         "do" => {
-                            if !started.insert(text.to_string()) {
-                                problems.push(format!("a second `do` record for {}", text));
-                            }
+                            // a target built again in the same session gets a
+                            // further `do` record; the caller compares the number
+                            // of records with the number of executions
+                            started.insert(text.to_string());
+                            *dos.entry(text.to_string()).or_insert(0) += 1;
                             cur = Some(text.to_string());
                         }
                         "resumed" => cur = Some(text.to_string()),
@@ -63,7 +79,7 @@ pub fn attribute(raw: &str) -> (BTreeMap<String, Vec<String>>, BTreeMap<String, 
             .or_default()
             .push(line.to_string());
     }
-    (per, done, problems)
+    (per, done, problems, dos)
 }
 
 fn script_lines(rule: &Rule) -> Vec<String> {
@@ -91,6 +107,67 @@ fn script_lines(rule: &Rule) -> Vec<String> {
         out.push(partial);
     }
     out
+}
+
+/// A target that is built two or three times in one session (its parent calls
+/// `redo n1` repeatedly): each build gets a new log while a reader may still
+/// be busy with the previous one.
+fn rebuilt_in_session_case(rng: &mut Rng, seed: u64) -> Case {
+    let mut line_no = 0;
+    let mut lines = |rng: &mut Rng, t: &str, stmts: &mut Vec<Stmt>, k: u64| {
+        for _ in 0..k {
+            line_no += 1;
+            match rng.below(6) {
+                0 => stmts.push(Stmt::ErrLong { n: 5000, tag: format!("{} long{} ", t, line_no) }),
+                1 => stmts.push(Stmt::ErrLong { n: 70000, tag: format!("{} huge{} ", t, line_no) }),
+                _ => stmts.push(Stmt::Err(format!("{} line{}", t, line_no))),
+            }
+        }
+    };
+    let mut rules: Vec<(String, Rule)> = Vec::new();
+    let mut n0 = Vec::new();
+    let k = rng.range(0, 2);
+    lines(rng, "n0", &mut n0, k);
+    for _ in 0..rng.range(2, 3) {
+        n0.push(Stmt::Redo(vec!["n1".into()]));
+        let k = rng.range(0, 2);
+        lines(rng, "n0", &mut n0, k);
+    }
+    rules.push(("n0.do".into(), Rule { version: 0, stmts: n0 }));
+    let mut n1 = Vec::new();
+    let k = rng.range(2, 8);
+    lines(rng, "n1", &mut n1, k);
+    if rng.chance(1, 2) {
+        n1.push(Stmt::IfChange(vec!["n2".into()]));
+        let k = rng.range(0, 3);
+        lines(rng, "n1", &mut n1, k);
+    }
+    if rng.chance(1, 2) {
+        n1.push(Stmt::Work(rng.range(1, 40)));
+    }
+    rules.push(("n1.do".into(), Rule { version: 0, stmts: n1 }));
+    let mut n2 = Vec::new();
+    let k = rng.range(1, 3);
+    lines(rng, "n2", &mut n2, k);
+    rules.push(("n2.do".into(), Rule { version: 0, stmts: n2 }));
+    let mut sc = Scenario {
+        family: "c18-rebuilt".into(),
+        files: vec![("s0".into(), source_content("s0", 0))],
+        rules,
+        ..Default::default()
+    };
+    let c = Cmd::new(&["redo", &format!("-j{}", rng.range(1, 3)), "--no-pretty", "n0"]);
+    sc.history.push(Step::Cmds(vec![c]));
+    sc.history
+        .push(Step::Cmds(vec![Cmd::new(&["redo-log", "--no-pretty", "-r", "n0"])]));
+    Case {
+        property: "C18".into(),
+        seed,
+        scenario: sc,
+        knobs: Knobs::draw(rng),
+        opts: PlayOpts::default(),
+        meta: BTreeMap::new(),
+    }
 }
 
 impl Property for C18 {
@@ -121,7 +198,10 @@ impl Property for C18 {
             "the record format/parse round trip for arbitrary (kind, pid, timestamp, text) is a pure function and not checked here".into(),
         ]
     }
-    fn generate(&self, rng: &mut Rng, seed: u64, _tier: Tier, _index: u64) -> Case {
+    fn generate(&self, rng: &mut Rng, seed: u64, _tier: Tier, index: u64) -> Case {
+        if index % 6 == 5 {
+            return rebuilt_in_session_case(rng, seed);
+        }
         let n = rng.range(2, 6) as usize;
         let names: Vec<String> = (0..n).map(|i| format!("n{}", i)).collect();
         let mut rules: Vec<(String, Rule)> = Vec::new();
@@ -246,8 +326,23 @@ impl Property for C18 {
             .iter()
             .map(|(p, r)| (p.trim_end_matches(".do").to_string(), script_lines(r)))
             .collect();
+        // redo-log shows the log of a target once per invocation, also when the
+        // target is built k times in the session (a script that calls `redo x`
+        // repeatedly): one `do` record and one copy of its lines -- live from
+        // the first build, which a reader may still be busy with when the next
+        // build replaces the log, in the replay from the last build -- and one
+        // `done` record per execution
+        let execs = exec_counts(&rec.groups[0]);
         for (view, text) in [("live output", &live.stderr), ("redo-log replay", &replay.stdout)] {
-            let (per, done, problems) = attribute(text);
+            let (per, done, problems, dos) = attribute_counting(text);
+            for (t, n) in &dos {
+                if *n != 1 {
+                    v.push(Violation {
+                        kind: "log-structure".into(),
+                        detail: format!("{}: {} `do` records for {}", view, n, t),
+                    });
+                }
+            }
             for p in problems {
                 v.push(Violation {
                     kind: "log-structure".into(),
@@ -255,10 +350,35 @@ impl Property for C18 {
                 });
             }
             for (t, want) in &expected {
+                if !execs.contains_key(t) {
+                    // a rule nobody asked for
+                    continue;
+                }
+                let k = execs.get(t).copied().unwrap_or(1).max(1) as usize;
                 let got: Vec<String> = per
                     .get(t)
                     .map(|l| l.iter().filter(|x| !x.starts_with("redo ")).cloned().collect())
                     .unwrap_or_default();
+                // a sub-target of a target that is built again in the same session:
+                // the replay shows the last build of the parent, which found the
+                // sub-target unchanged and does not refer to its log; a live
+                // follower that opens the parent's log only after it was replaced
+                // sees the same (known finding C18-subtarget-of-rebuilt-target)
+                let below_rebuilt = case.scenario.family == "c18-rebuilt" && t == "n2";
+                if below_rebuilt && got.is_empty() && !dos.contains_key(t) {
+                    if view == "live output" && !want.is_empty() {
+                        v.push(Violation {
+                            kind: "log-subtarget-of-rebuilt-target-lost".into(),
+                            detail: format!(
+                                "live output: subtarget-of-rebuilt-target: the lines of {} ({:?}) never appear; its parent n1 was built {} times in this session",
+                                t,
+                                want.iter().map(|s| s.chars().take(30).collect::<String>()).collect::<Vec<_>>(),
+                                execs.get("n1").copied().unwrap_or(0)
+                            ),
+                        });
+                    }
+                    continue;
+                }
                 if &got != want {
                     let short = |v: &Vec<String>| -> Vec<String> {
                         v.iter().map(|s| if s.len() > 60 { format!("{}..({} bytes)", &s[..40], s.len()) } else { s.clone() }).collect()
@@ -277,11 +397,13 @@ impl Property for C18 {
                 }
                 // the done record of the requested target is written by the
                 // top-level command itself, not into any target's log
-                let root_in_replay = view == "redo-log replay" && t == "n0";
-                if !root_in_replay && done.get(t).map(|d| d.as_slice()) != Some(&[0][..]) {
+                // (in the replay the last build of a rebuilt parent refers to its
+                // unchanged sub-target without a done record)
+                let root_in_replay = view == "redo-log replay" && (t == "n0" || below_rebuilt);
+                if !root_in_replay && done.get(t).map(|d| d.as_slice()) != Some(&vec![0; k][..]) {
                     v.push(Violation {
                         kind: "log-done-record".into(),
-                        detail: format!("{}: done records of {}: {:?} (expected exactly one with status 0)", view, t, done.get(t)),
+                        detail: format!("{}: done records of {}: {:?} (expected {} with status 0)", view, t, done.get(t), k),
                     });
                 }
             }
